@@ -4,17 +4,51 @@ pub struct IgnoreAsmIstructions;
 impl TokenIgnorer for IgnoreAsmIstructions {
     fn ignore_tokens(
         &self,
-        (_tokens, lines): (&[Token], &[LogicalLine]),
+        (tokens, lines): (&[Token], &[LogicalLine]),
         token_marker: &mut TokenMarker,
     ) {
+        let mut in_instruction = vec![false; tokens.len()];
         lines
             .iter()
             .filter(|line| line.get_line_type() == LogicalLineType::AsmInstruction)
-            .for_each(|line| {
-                line.get_tokens().iter().for_each(|token| {
-                    token_marker.mark(*token);
-                })
+            .flat_map(|line| line.get_tokens())
+            .for_each(|&token| {
+                if let Some(marked) = in_instruction.get_mut(token) {
+                    *marked = true;
+                }
+                token_marker.mark(token);
             });
+
+        /*
+            A conditional directive written on the line of an instruction is part of that line:
+            putting it on a line of its own would end the instruction early.
+            ```
+            PUSH {$IFDEF CPUX64} rbx {$ELSE} ebx {$ENDIF}
+            ```
+        */
+        let is_conditional = |index: usize| {
+            matches!(
+                tokens.get(index).map(Token::get_token_type),
+                Some(TokenType::ConditionalDirective(_))
+            )
+        };
+        let starts_line = |index: usize| {
+            tokens
+                .get(index)
+                .is_none_or(|token| token.get_leading_whitespace().contains(['\r', '\n']))
+        };
+        for index in 1..tokens.len() {
+            if is_conditional(index) && !starts_line(index) && in_instruction[index - 1] {
+                in_instruction[index] = true;
+                token_marker.mark(index);
+            }
+        }
+        for index in (0..tokens.len().saturating_sub(1)).rev() {
+            if is_conditional(index) && !starts_line(index + 1) && in_instruction[index + 1] {
+                in_instruction[index] = true;
+                token_marker.mark(index);
+            }
+        }
     }
 }
 
